@@ -109,7 +109,11 @@ func newType(typeName string, old ast.LlvmNode, index map[string]*ast.TypeDef, t
 		track[typeName] = true
 		newIdent := localIdent(old.Name())
 		newName := getTypeName(newIdent)
-		newTyp := index[newName].Typ()
+		newDef, ok := index[newName]
+		if !ok {
+			return nil, errors.Errorf("unable to locate type identifier %q", enc.TypeName(newName))
+		}
+		newTyp := newDef.Typ()
 		return newType(newName, newTyp, index, track)
 	default:
 		panic(fmt.Errorf("support for type %T not yet implemented", old))
